@@ -913,3 +913,35 @@ func corpusZeroKey(r *runner) {
 	}
 	r.get(0)
 }
+
+// corpusUnclosedUpdate: outside C31_update_replaces — an update-mode encoder that is written to but not (yet) closed.
+// The old tail is still there (Lean: Sop.C31.C31_update_needs_close); Close afterwards removes it. Also: the same with a
+// neighbour on each side, a growing update, and an update with no value at all (Close removes the whole entry).
+func corpusUnclosedUpdate(r *runner) {
+	old := []val{{'s', 40, 1}, {'s', 900, 2}, {'s', 6, 3}}
+	r.add(1, []val{{'s', 5, 9}})
+	r.add(2, old)
+	r.add(3, []val{{'s', 5, 8}})
+	st := r.newIL()
+	w := r.openWriter(st, "upd", 2)
+	if w == nil {
+		return
+	}
+	j := len(st.ws) - 1
+	nv := val{'s', 70, 4}
+	r.putStep(st, j, nv)
+	// not closed: chunk 0 is the new value, chunks 1.. are still the OLD content
+	r.ref[2] = append([][]byte{nv.chunk()}, chunks(old)[1:]...)
+	r.s.Hit("update_not_closed_old_tail_kept")
+	r.dump(2)
+	r.get(2)
+	r.closeStep(st, j) // Close after the fact: exactly the new value is left
+	r.dump(2)
+	r.get(2)
+	r.update(2, []val{{'s', 3, 5}, {'s', 700, 6}, {'s', 3, 7}, {'s', 5000, 10}}) // grows
+	r.dump(2)
+	r.update(2, nil) // no value: Close removes every chunk of the entry
+	r.dump(2)
+	r.get(1)
+	r.get(3)
+}
